@@ -209,7 +209,7 @@ def run_path(ctx, h, prefix, trace_funcs=False):
         # an unexpected exception is itself a counterexample candidate: any model of the pc
         proxy_limit = any(t in (rec['error'] or '') for t in ("'SymX'", "'SymInt'", "'SymBool'", 'symbolic real'))
         try:
-            pm = ctx.path_model() if proxy_limit else None     # generic-position values: the concrete twin decides
+            pm = ctx.path_model(noninteger=True) if proxy_limit else None     # generic-position values: the concrete twin decides
             if pm is not None:
                 rec['cex'] = ('no_unexpected_exception', pm[0])
             else:
